@@ -74,6 +74,8 @@ func runC11(c *core.Ctx) {
 			}
 		}
 		switch {
+		case r.Chance(1, 8):
+			d = core.Pick(r, sgen.BoundaryDates) // leap days, century leap day, ends of years, epoch edges
 		case calOf != nil:
 			d = dateNear(calOf)
 		case r.Chance(1, 8):
